@@ -83,6 +83,7 @@ class Engine(EngineBase):
             "clock": rng.choice(["inc", "coarse", "stall"]),
             "mt": rng.random() < 0.6,
             "pool": rng.randrange(1, 4),
+            "xdev_tmp": rng.random() < 0.3,
         }
         if target == "migdoc":
             mode = "crash"
